@@ -356,8 +356,10 @@ impl DrawExecutor {
     fn draw_ellipse(&mut self, xm: i32, ym: i32, a: i32, b: i32) {
         let mut x = -a;
         let mut y = 0; /* II. quadrant from bottom left to top right */
-        let e2 = b * b;
-        let mut err = x * (2 * e2 + x) + e2; /* error of 1.step */
+        // the error terms are products of three 16 bit values
+        let (a64, b64) = (a as i64, b as i64);
+        let e2 = b64 * b64;
+        let mut err = x as i64 * (2 * e2 + x as i64) + e2; /* error of 1.step */
         let color = self.line_color;
 
         while x <= 0 {
@@ -366,15 +368,15 @@ impl DrawExecutor {
             self.set_pixel(xm + x, ym - y, color); /* III. Quadrant */
             self.set_pixel(xm - x, ym - y, color); /*  IV. Quadrant */
             let e2 = 2 * err;
-            if e2 >= (x * 2 + 1) * b * b {
+            if e2 >= (x as i64 * 2 + 1) * b64 * b64 {
                 /* e_xy+e_x > 0 */
                 x += 1;
-                err += (x * 2 + 1) * b * b;
+                err += (x as i64 * 2 + 1) * b64 * b64;
             }
-            if e2 <= (y * 2 + 1) * a * a {
+            if e2 <= (y as i64 * 2 + 1) * a64 * a64 {
                 /* e_xy+e_y < 0 */
                 y += 1;
-                err += (y * 2 + 1) * a * a;
+                err += (y as i64 * 2 + 1) * a64 * a64;
             }
         }
 
@@ -389,23 +391,25 @@ impl DrawExecutor {
     fn fill_ellipse(&mut self, xm: i32, ym: i32, a: i32, b: i32) {
         let mut x = -a;
         let mut y = 0; /* II. quadrant from bottom left to top right */
-        let e2 = b * b;
-        let mut err = x * (2 * e2 + x) + e2; /* error of 1.step */
+        // the error terms are products of three 16 bit values
+        let (a64, b64) = (a as i64, b as i64);
+        let e2 = b64 * b64;
+        let mut err = x as i64 * (2 * e2 + x as i64) + e2; /* error of 1.step */
         let color = self.line_color;
 
         while x <= 0 {
             self.fill_rect(xm - x, ym + y, xm + x, ym + y); /*  II. Quadrant */
             self.fill_rect(xm + x, ym - y, xm - x, ym - y); /*  IV. Quadrant */
             let e2 = 2 * err;
-            if e2 >= (x * 2 + 1) * b * b {
+            if e2 >= (x as i64 * 2 + 1) * b64 * b64 {
                 /* e_xy+e_x > 0 */
                 x += 1;
-                err += (x * 2 + 1) * b * b;
+                err += (x as i64 * 2 + 1) * b64 * b64;
             }
-            if e2 <= (y * 2 + 1) * a * a {
+            if e2 <= (y as i64 * 2 + 1) * a64 * a64 {
                 /* e_xy+e_y < 0 */
                 y += 1;
-                err += (y * 2 + 1) * a * a;
+                err += (y as i64 * 2 + 1) * a64 * a64;
             }
         }
 
@@ -424,6 +428,12 @@ impl DrawExecutor {
         if x0 > x1 {
             std::mem::swap(&mut x0, &mut x1);
         }
+        // only the part on the canvas can be painted
+        let res = self.get_resolution();
+        x0 = x0.max(0);
+        y0 = y0.max(0);
+        x1 = x1.min(res.width - 1);
+        y1 = y1.min(res.height - 1);
 
         for y in y0..=y1 {
             for x in x0..=x1 {
@@ -900,7 +910,9 @@ impl CommandExecutor for DrawExecutor {
                     return Err(anyhow::anyhow!("PolyLine requires {} arguments was {} ", points.saturating_mul(2).saturating_add(1), parameters.len()));
                 }
                 self.draw_polyline(&parameters[1..]);
-                self.cur_position = Position::new(parameters[parameters.len() - 2], parameters[parameters.len() - 1]);
+                if parameters.len() >= 3 {
+                    self.cur_position = Position::new(parameters[parameters.len() - 2], parameters[parameters.len() - 1]);
+                }
 
                 Ok(CallbackAction::Update)
             }
